@@ -2,6 +2,7 @@ import Comdex.Lemmas.DutchPrice
 import Comdex.Lemmas.DutchV2
 import Comdex.Lemmas.DutchV1
 import Comdex.Lemmas.DutchV1Lend
+import Comdex.Lemmas.DutchV1LendBook
 import Comdex.Lemmas.DutchV2W
 import Comdex.Lemmas.DutchBand
 /-!
@@ -831,5 +832,82 @@ the 5 % bonus pot that was seized for them — 130 802 units — stays in the au
 theorem l1_close_custody_counterexample :
     l1Final.auc = none ∧ l1Final.paid = 30434782 ∧ l1Final.bank.get .owner .coll = 2616032 ∧
     l1Final.bank.get .auction .coll = 130802 ∧ l1Final.otherC = 0 := by decide
+
+/-! ### first-generation lend auctions: the lend-side book-keeping of the close (`Model/DutchV1LendBook.lean`) -/
+
+section LendBook
+open Comdex.DutchV1LendBook
+
+/-- **`close_distributes_all` for first-generation lend auctions, pool and lend module accounts included.**  The bid that closes the
+auction (target reached, or collateral sold out with the reserve paying the rest) does, and only does, the following.
+
+*Debt denomination.*  The bidder pays `p.inAmt`; nothing of it rests in the auction module (`Inv`: module debt balance = what is
+not this auction's).  The pool receives it, plus `req` from the reserve when the collateral was sold out below the target
+(`req = target − collected`, else 0), minus the reserve's share of the borrow's interest `⌊ReservePoolInterest⌋`, which goes to the
+lend module: pool and reserve TOGETHER gain exactly what the bidder paid.
+
+*Collateral.*  The bidder gets slice + bonus, the borrower the unsold rest (`coll0 − sold`); the pool loses exactly what a
+re-liquidation hands to the auction module for the follow-up auction (`cp.redep`, booked as not this auction's) plus that
+re-liquidation's penalty `cp.pen2`, which the reserve gains.  In the auction module stays, of this auction, exactly the unpaid part of
+the bonus pot (`Inv.closed` — the stranded remainder of D32, `l1_close_custody_counterexample`).
+
+*Records.*  cTokens of the debt asset minted to the pool: `⌊InterestAccumulated − ReservePoolInterest⌋`; and one of five outcomes for
+locked vault / borrow / collateral cTokens (`Outcome`): repaid in full (records deleted, the cTokens `AmountIn` returned to the
+borrower), no collateral left (records deleted), healthy again (borrow restored with `AmountIn`, `AmountOut − target`), still
+unhealthy (liquidated again: `deduction` cTokens burned and taken off the locked vault), or stuck (a price went inactive). -/
+theorem l1_close_distributes_all (e : DutchV1Lend.Env) (r : Rates) (s s' : BSt) (who : Nat) (slice : Int) (x : Ext) (a : DutchV1Lend.Auc)
+    (hb : (0 : Int) ≤ e.bonus) (hi : DutchV1Lend.Inv e s.s) (ha : s.s.auc = some a)
+    (h : DutchV1LendBook.bidE e r s who slice x = .ok s') (hc : s'.s.auc = none) :
+    ∃ p cp lv0 req, DutchV1Lend.plan e a slice = .ok p ∧ closeBook e r s.k x = .ok cp ∧ s.k.lv = some lv0 ∧ Outcome e s.k lv0 cp ∧
+      -- debt
+      s'.s.bank.get .auction .debt = s'.s.otherD ∧ s'.s.otherD = s.s.otherD ∧
+      s'.s.bank.get (.bidder who) .debt = s.s.bank.get (.bidder who) .debt - p.inAmt ∧
+      0 ≤ req ∧ (a.inCur + p.inAmt ≥ e.target → req = 0) ∧ (a.inCur + p.inAmt < e.target → req = e.target - (a.inCur + p.inAmt)) ∧
+      s'.s.bank.get .pool .debt = s.s.bank.get .pool .debt + p.inAmt + req - riOf s.k ∧
+      s'.s.bank.get .lendres .debt = s.s.bank.get .lendres .debt - req + riOf s.k ∧
+      -- collateral
+      s'.s.bank.get .owner .coll - s.s.bank.get .owner .coll = e.coll0 - (s'.s.recv - s'.s.bonusPaid) ∧
+      s'.s.bank.get .pool .coll = s.s.bank.get .pool .coll - cp.redep - cp.pen2 ∧
+      s'.s.bank.get .lendres .coll = s.s.bank.get .lendres .coll + cp.pen2 ∧
+      s'.s.bank.get .auction .coll = s.s.otherC + cp.redep + (e.deposit - e.coll0 - s'.s.bonusPaid) ∧
+      -- records
+      s'.k.lv = cp.k.lv ∧ s'.k.borrow = cp.k.borrow ∧ s'.k.liquidated = cp.k.liquidated ∧
+      s'.k.cPoolDebt = s.k.cPoolDebt + mintOf s.k ∧ s'.k.cPoolColl = cp.k.cPoolColl ∧ s'.k.cOwnerColl = cp.k.cOwnerColl := by
+  obtain ⟨p, cp, lv0, h1, h2, h3, h4, h5, _, hoD, ⟨req, q1, q2, q3, q4, q5, _⟩, h8, h9, h10, h11, h12, h13, h14, h15, h16, _, h18, h19⟩ :=
+    DutchV1LendBook.bidE_close hb hi ha h hc
+  obtain ⟨_, _, c3⟩ := h5.closed hc
+  refine ⟨p, cp, lv0, req, h1, h2, h3, h4, h5.debt_custody, hoD, ?_, q1, q2, q3, q4, q5, h19, h8, h9, ?_, h11, h12, h13, h14, h15, h16⟩
+  · have := h18 who; simpa using this
+  · rw [c3, h10]
+
+/-- non-vacuity: the three outcomes that move anything, on the borrow of the D32 witness with a year of interest (570 809.03 accrued,
+114 161.80 of it the reserve's): (1) healthy again — the reserve gets 114 161, 456 647 cTokens are minted, the borrow is restored
+with 39 565 218 owed; (2) a smaller debt is repaid in full — 62 801 933 cTokens go back to the borrower; (3) the collateral price
+has halved — liquidated again: 206 483 951 collateral to the auction module, 9 832 569 to the reserve -/
+def lbRates : Rates := { ltv := 700000000000000000, pen := 50000000000000000, thr := 750000000000000000 }
+def lbLv : LV := { amtIn := 62801933, amtOut := 70000000, updOut := 70570809 }
+def lbBook : Book := { lv := some lbLv, borrow := some (62801933, 70000000), intAcc := 570809034907615000000000, resInt := 114161806981523000000000, cPoolDebt := 10100000000, cPoolColl := 11062801933, cOwnerColl := 2900000000 }
+def lbBank : Bank := [((.auction, .coll), 35507246), ((.bidder 1, .debt), 100000000), ((.bidder 2, .debt), 100000000),
+  ((.pool, .coll), 13000000000), ((.pool, .debt), 20000000000), ((.lendres, .debt), 500)]
+def lbX (twaC : Int) : Ext := { twaC := twaC, actC := true, twaD := 2000000, actD := true }
+def lbRun (k : Book) (twaC : Int) : BSt := DutchV1LendBook.run l1Env lbRates { s := DutchV1Lend.initSt l1Env l1Auc lbBank, k := k }
+  [.bid 1 1000000 (lbX 1800000), .tick 1200 1800000 true 2000000 true, .bid 2 32816425 (lbX twaC)]
+
+example :
+    (lbRun lbBook 1800000).s.auc = none ∧ (lbRun lbBook 1800000).k.lv = none ∧ (lbRun lbBook 1800000).k.borrow = some (62801933, 39565218) ∧
+    (lbRun lbBook 1800000).k.cPoolDebt = 10100456647 ∧ (lbRun lbBook 1800000).s.bank.get .lendres .debt = 114661 ∧
+    (lbRun lbBook 1800000).s.bank.get .pool .debt = 20030320621 ∧ (lbRun lbBook 1800000).s.bank.get .auction .coll = 130802 := by decide
+
+example :
+    let k2 : Book := { lbBook with lv := some { lbLv with amtOut := 30434782, updOut := 30434782 }, borrow := some (62801933, 30434782) }
+    (lbRun k2 1800000).s.auc = none ∧ (lbRun k2 1800000).k.lv = none ∧ (lbRun k2 1800000).k.borrow = none ∧
+    (lbRun k2 1800000).k.cOwnerColl = 2962801933 ∧ (lbRun k2 1800000).k.cPoolColl = 11000000000 := by decide
+
+example :
+    (lbRun lbBook 900000).s.auc = none ∧ (lbRun lbBook 900000).k.lv = some { amtIn := 0, amtOut := 39565218, updOut := 40136027 } ∧
+    (lbRun lbBook 900000).k.redep = 206483951 ∧ (lbRun lbBook 900000).k.pen2 = 9832569 ∧ (lbRun lbBook 900000).s.otherC = 206483951 ∧
+    (lbRun lbBook 900000).s.bank.get .pool .coll = 12783683480 ∧ (lbRun lbBook 900000).s.bank.get .lendres .coll = 9832569 := by decide
+
+end LendBook
 
 end Comdex.C10
